@@ -2713,6 +2713,13 @@ func (s *Store) fsmSnapshot() (fSnap raft.FSMSnapshot, retErr error) {
 		//
 		// A failed FULL snapshot is always retryable, since we're looking to capture
 		// the entire database. So return the error and Raft will retry.
+		//
+		// Any WAL files still in the staging directory (left by an earlier snapshot
+		// which was not persisted) belong to the chain this full snapshot replaces.
+		// They must not be packaged with a later incremental snapshot.
+		if err := os.RemoveAll(s.walStagingDir); err != nil {
+			return nil, fmt.Errorf("failed to remove WAL staging directory for full snapshot: %w", err)
+		}
 		if meta, _, err := s.checkpointer.Checkpoint(nil, truncateTimeout); err != nil {
 			return nil, fmt.Errorf("checkpoint failed during full snapshot: %w", err)
 		} else if !meta.Success() {
@@ -2872,6 +2879,11 @@ func (s *Store) fsmRestore(rc io.ReadCloser) (retErr error) {
 	// fast-restart with it.
 	if err := fsutil.RemoveFile(s.cleanSnapshotPath); err != nil {
 		return fmt.Errorf("failed to remove clean snapshot file: %w", err)
+	}
+	// Staged WAL files were created from the database being replaced, so they
+	// must not be packaged with a later incremental snapshot either.
+	if err := os.RemoveAll(s.walStagingDir); err != nil {
+		return fmt.Errorf("failed to remove WAL staging directory: %w", err)
 	}
 	vhook.Crash("restore.fpremoved")
 	if err := s.db.Swap(tmpPath, s.dbConf.FKConstraints, true); err != nil {
